@@ -276,8 +276,12 @@ func checkRRSweepShape(p *Prog, r *Report, ri *rrInfo) {
 			want := ParseLin(IDX, "==")
 			for _, ifi := range ifs(fn) {
 				cmp, ok := CanonCmp(BuildExpr(p, ifi.Cond, nil))
-				if ok && cmp.Equal(want) && OnlyViaEdge(fn, dec, Edge{ifi.Block(), 0}) &&
-					ReturnReachableAvoiding(fn, ifi, isOnly(dec), func(x Edge) bool { return !(x.B == ifi.Block() && x.K == 1) }) == nil {
+				if !ok {
+					continue
+				}
+				k := edgeOf(cmp, want) // the edge on which index == 0 holds (either polarity of the test)
+				if k >= 0 && OnlyViaEdge(fn, dec, Edge{ifi.Block(), k}) &&
+					ReturnReachableAvoiding(fn, ifi, isOnly(dec), func(x Edge) bool { return !(x.B == ifi.Block() && x.K == 1-k) }) == nil {
 					okB = true
 				}
 			}
@@ -294,7 +298,10 @@ func checkRRSweepShape(p *Prog, r *Report, ri *rrInfo) {
 		whyC = "the level is not re-armed exactly when it dropped to <= 0"
 		for _, ifi := range ifs(fn) {
 			cmp, ok := CanonCmp(BuildExpr(p, ifi.Cond, nil))
-			if ok && cmp.Equal(want) && OnlyViaEdge(fn, rearm, Edge{ifi.Block(), 0}) && Reach(fn, dec, nil, nil)[ifi] {
+			if !ok {
+				continue
+			}
+			if k := edgeOf(cmp, want); k >= 0 && OnlyViaEdge(fn, rearm, Edge{ifi.Block(), k}) && Reach(fn, dec, nil, nil)[ifi] {
 				okC = true
 			}
 		}
@@ -325,4 +332,16 @@ func checkRRSweepShape(p *Prog, r *Report, ri *rrInfo) {
 	r.Check(okD, "C01.R7", tn+": a server is taken iff its weight >= the current level", p.FuncPos(fn), "weight(pool[index]) - level >= 0", "no comparison of the indexed record's weight with the current level")
 	_ = fmt.Sprint
 	_ = types.Typ
+}
+
+// edgeOf: the successor index of an If testing cmp on which `want` holds: 0 when cmp is want, 1 when cmp is
+// its negation, -1 otherwise.
+func edgeOf(cmp, want LinCmp) int {
+	if cmp.Equal(want) {
+		return 0
+	}
+	if cmp.Negate().Equal(want) {
+		return 1
+	}
+	return -1
 }
